@@ -23,6 +23,7 @@ META = {
     "trusted_base": ["std Vec::push/clear, BTreeSet::insert", "C17 (from_i64 / to_i64 / is_private summaries used in the guard tables)"],
 }
 META["decides"] += ' (As built: decided on every PUBLIC method with all crate-local callees expanded in place; key constructors by the net value of the returned key; a public method outside the documented-effects table that is not a generated setter is noted, not judged.)'
+META["decides"] += ' R-3 also re-checks the is_private summary the guard tables use; R-2 also: derived Default / Clone.'
 
 SELF0 = ("field", ("param", 0), "0")
 
